@@ -125,31 +125,35 @@ Definition pre_ok (p : str) : bool := forallb pre_part_ok (split_on c_dot p).
 Definition num_or_zero (o : option str) : option N :=
   match o with None => Some 0%N | Some d => parse_uint d end.
 
+(* the part of the regular expression after the numbers: optional '-' and dot-separated
+   identifiers, optional '+' and dot-separated identifiers, end of string; gives (pre, metadata) *)
+Definition parse_tail (r3 : str) : option (str * str) :=
+  match r3 with
+  | [] => Some ([], [])
+  | b :: t =>
+    if beqb b c_dash then
+      let (p, m) := break_on c_plus t in
+      if idents_ok p
+      then match m with
+           | None => Some (p, [])
+           | Some m' => if idents_ok m' then Some (p, m') else None
+           end
+      else None
+    else if beqb b c_plus then (if idents_ok t then Some ([], t) else None)
+    else None
+  end.
+
 (* semver.NewVersion *)
-Definition parse (s : str) : option version :=
-  let s1 := match s with b :: t => if beqb b c_v then t else s | [] => s end in
+Definition strip_v (s : str) : str :=
+  match s with b :: t => if beqb b c_v then t else s | [] => s end.
+Definition parse_body (s1 : str) : option version :=
   let (mj, r1) := span_digits s1 in
   match mj with
   | [] => None
   | _ =>
     let (mn, r2) := opt_dot_num r1 in
     let (pt, r3) := opt_dot_num r2 in
-    let tail : option (str * str) :=          (* (pre, metadata) as matched by the regexp *)
-      match r3 with
-      | [] => Some ([], [])
-      | b :: t =>
-        if beqb b c_dash then
-          let (p, m) := break_on c_plus t in
-          if idents_ok p
-          then match m with
-               | None => Some (p, [])
-               | Some m' => if idents_ok m' then Some (p, m') else None
-               end
-          else None
-        else if beqb b c_plus then (if idents_ok t then Some ([], t) else None)
-        else None
-      end in
-    match tail with
+    match parse_tail r3 with
     | None => None
     | Some (p, m) =>
       match parse_uint mj, num_or_zero mn, num_or_zero pt with
@@ -161,6 +165,8 @@ Definition parse (s : str) : option version :=
       end
     end
   end.
+
+Definition parse (s : str) : option version := parse_body (strip_v s).
 
 (* Version.String *)
 Definition print (v : version) : str :=
